@@ -335,6 +335,119 @@ func runC07(c *core.Ctx) {
 	ruleFraming(c, "R07.2", syncOpTypes(c.P, "SyncOp_"), syncOpTypes(c.P, "SyncHeader_"))
 	rulePartitionBound(c, "R07.3")
 	ruleEndOfSeries(c, "R12.1")
+	ruleNonEmptySuffixSort(c, "R12.4")
+	ruleRewindBeforeLinearRead(c, "R07.4")
+}
+
+// ruleNonEmptySuffixSort (R12.4): the suffix sorter and the suffix search index their input unconditionally
+// (gosaca.ComputeSuffixArray panics on an empty text; search reads I[st] when the range has fewer than two
+// entries). Every slice handed to them must be known non-empty: its bounds lo, hi are ordered by a dominating
+// lo < hi, or its length is tested. "For any old ... byte string" includes the empty one.
+func ruleNonEmptySuffixSort(c *core.Ctx, rule string) {
+	c.Rule(rule, "suffix sorting and searching only on non-empty input")
+	srch := c.P.Fn("bsdiff", "search")
+	n := 0
+	for _, fn := range c.P.SrcFuncs() {
+		if !strings.HasSuffix(core.PkgPathOf(fn), "/bsdiff") {
+			continue
+		}
+		if top := family(fn); top == srch {
+			continue // the recursion narrows a non-empty range
+		}
+		core.Instrs(fn, func(in ssa.Instruction) {
+			cl, ok := in.(*ssa.Call)
+			if !ok {
+				return
+			}
+			var arg ssa.Value
+			what := ""
+			switch {
+			case strings.HasSuffix(core.CalleeName(cl), "gosaca.WorkSpace).ComputeSuffixArray") && len(cl.Call.Args) >= 2:
+				arg, what = cl.Call.Args[1], "text handed to gosaca.ComputeSuffixArray"
+			case srch != nil && cl.Call.StaticCallee() == srch && len(cl.Call.Args) >= 1:
+				arg, what = cl.Call.Args[0], "suffix array handed to search"
+			default:
+				return
+			}
+			n++
+			sl, isSlice := arg.(*ssa.Slice)
+			okNE := hasGuard(in, func(g core.Guard) bool {
+				isLenOfArg := func(v ssa.Value) bool {
+					lc, ok := v.(*ssa.Call)
+					if !ok {
+						return false
+					}
+					b, ok := lc.Call.Value.(*ssa.Builtin)
+					return ok && b.Name() == "len" && (sameVal(lc.Call.Args[0], arg) || (isSlice && sameVal(lc.Call.Args[0], sl.X) && sl.Low == nil && sl.High == nil))
+				}
+				if relHolds(g, token.GTR, isLenOfArg, isConstInt(0)) || relHolds(g, token.NEQ, isLenOfArg, isConstInt(0)) || relHolds(g, token.GEQ, isLenOfArg, isConstInt(1)) {
+					return true
+				}
+				if isSlice && sl.Low != nil && sl.High != nil {
+					lo, hi := sl.Low, sl.High
+					isLo := func(v ssa.Value) bool { return sameVal(v, lo) || sameExpr(v, lo) }
+					isHi := func(v ssa.Value) bool { return sameVal(v, hi) || sameExpr(v, hi) }
+					// lo != hi is enough: the slice expression itself demands lo <= hi
+					if relHolds(g, token.LSS, isLo, isHi) || relHolds(g, token.NEQ, isLo, isHi) {
+						return true
+					}
+				}
+				return false
+			})
+			c.Check(okNE, rule, core.FnName(fn), what+" is non-empty: "+core.Describe(arg), core.InstrPos(in),
+				"dominated by a test that orders the slice bounds (lo < hi) or finds the length positive",
+				"the "+what+" can be empty (an empty old file, or a partition of zero bytes): the callee indexes it unconditionally and panics - in a goroutine, which takes the process down")
+		})
+	}
+	c.Floor(rule, "calls of the suffix sorter / search from outside", n, 2)
+}
+
+// ruleRewindBeforeLinearRead (R07.4): a ReadSeeker obtained from a pool's GetReadSeeker may be a cached handle
+// at any position (fspool re-issues its open file). Before it is consumed as a plain io.Reader from "the start",
+// it must be positioned: every path from the GetReadSeeker call to a use as io.Reader passes a Seek on it.
+func ruleRewindBeforeLinearRead(c *core.Ctx, rule string) {
+	c.Rule(rule, "pool read-seekers are positioned before they are read linearly")
+	n := 0
+	for _, fn := range c.P.SrcFuncs() {
+		if !strings.HasSuffix(core.PkgPathOf(fn), "/pwr/rediff") && !strings.HasSuffix(core.PkgPathOf(fn), "/pwr") && !strings.HasSuffix(core.PkgPathOf(fn), "/pwr/patcher") && !strings.HasSuffix(core.PkgPathOf(fn), "/pwr/bowl") {
+			continue
+		}
+		core.Instrs(fn, func(in ssa.Instruction) {
+			cl, ok := in.(*ssa.Call)
+			if !ok || !cl.Call.IsInvoke() || cl.Call.Method.Name() != "GetReadSeeker" {
+				return
+			}
+			// the reader: result #0
+			var rs ssa.Value
+			if refs := cl.Referrers(); refs != nil {
+				for _, r := range *refs {
+					if ex, ok := r.(*ssa.Extract); ok && ex.Index == 0 {
+						rs = ex
+					}
+				}
+			}
+			if rs == nil {
+				return
+			}
+			isSeek := func(x ssa.Instruction) bool {
+				sc, ok := x.(*ssa.Call)
+				return ok && sc.Call.IsInvoke() && sc.Call.Method.Name() == "Seek" && sameVal(sc.Call.Value, rs)
+			}
+			// uses as a plain io.Reader: a conversion of the value to io.Reader
+			core.Instrs(fn, func(x ssa.Instruction) {
+				ci, ok := x.(*ssa.ChangeInterface)
+				if !ok || core.TypeName(ci.Type()) != "io.Reader" || !sameVal(ci.X, rs) {
+					return
+				}
+				n++
+				p := core.FindPath(fn, cl, isInstr(x), isSeek)
+				c.Check(p == nil, rule, core.FnName(fn), "pool read-seeker is positioned before it is read as a plain reader: "+core.Describe(rs), core.InstrPos(x),
+					"every path from GetReadSeeker to this use passes a Seek on the reader",
+					"a ReadSeeker from a pool is read from wherever it happens to stand: pools cache and re-issue open files, so a second request for the same file yields a reader at its end and the consumer sees an empty (or partial) file").Path = c.P.PathStrings(p)
+			})
+		})
+	}
+	c.Floor(rule, "pool read-seekers consumed as plain readers", n, 1)
 }
 
 func rulePartitionBound(c *core.Ctx, rule string) {
@@ -461,6 +574,7 @@ func runC12(c *core.Ctx) {
 	ruleEndOfSeries(c, "R12.1")
 	ruleDivisors(c, "R07.1")
 	ruleOrderedFanIn(c, "R15.3")
+	ruleNonEmptySuffixSort(c, "R12.4")
 
 	// ---- R12.2
 	apply := c.P.Fn("bsdiff", "IndividualPatchContext.Apply")
